@@ -68,6 +68,20 @@ CHECKS = {
         design_ref="DESIGN.md section 3 C24, section 8",
         technique="typed call-site enumeration; iterator data-flow classification; CFG separation (sort before sink)",
     ),
+    "C26": dict(
+        category="other",
+        text="Decides the option-flow clause: every read of strip_comments, newline_style, indent_width, max_width and vertical_align in the "
+             "whole workspace is found from MIR field projections; the value is followed by a forward may-flow analysis through locals, "
+             "pure arithmetic, the carrier fields (Emitter/Formatter/Migrator.newline, RenderOpts.*) and wrap_isolation_threshold's result "
+             "into their readers in turn; every consumer must be a presentation effect from a small table (process_comment only under "
+             "strip_comments, computed as the classical control-dependence region of the branch, so an early return that skips other "
+             "effects is seen; the alignment pass under vertical_align; RenderOpts fields of the same name, align_reset decisions and "
+             "renderer-internal layout for the widths; line-end writes and line-feed replacement for newline_style), and no crate that "
+             "decides behaviour reads them. It does not decide that two layouts emit behaviourally equal SystemVerilog; "
+             "expand_inside_operation is excluded.",
+        design_ref="DESIGN.md section 3 C26, section 8.4i",
+        technique="workspace-wide field-read enumeration; forward value-flow (taint) with carrier-field closure; control dependence from post-dominators; consumer allow-table",
+    ),
     "C27": dict(
         category="other",
         text="Decides sibling agreement of check mode and write mode in `veryl build` and `veryl fmt`: the mode of every "
